@@ -185,6 +185,104 @@ def permute_script(script, rng):
     return out, cmap, what
 
 
+def permute_indicators(script, rng):
+    """permute runs of consecutive indicator / objective declarations (nothing else is declared in between, so every
+    member of the run snapshots the same tasks and resources), re-indexing the references to indicators (objectives on an
+    indicator, IndicatorTarget / IndicatorBounds) that come after the run.  Returns (script', changed)"""
+    probe = pslib.Real()
+    created = {}
+    for p, d in enumerate(script):
+        n0 = len(probe.problem.indicators) if probe.problem is not None else 0
+        probe.step(d)
+        n1 = len(probe.problem.indicators) if probe.problem is not None else 0
+        created[p] = (n0, n1)
+    runs, cur = [], []
+    for p, d in enumerate(script):
+        if d["op"] in ("indicator", "objective"):
+            cur.append(p)
+        elif d["op"] == "constraint" and d["c"][0] not in ("loadBuffer", "unloadBuffer", "indicatorTarget", "indicatorBounds"):
+            continue            # a constraint in between declares no task, resource or buffer access
+        else:
+            if len(cur) >= 2:
+                runs.append(cur)
+            cur = []
+    if len(cur) >= 2:
+        runs.append(cur)
+    order = list(range(len(script)))
+    changed = False
+    def creator(idx):
+        return next((q for q, (a, b) in created.items() if a <= idx < b), None)
+
+    def valid(run, perm):
+        place = {old: k for k, old in enumerate(perm)}        # position (within the run) each old item moves to
+        for p_ in run:
+            d = script[p_]
+            if d["op"] == "objective" and d["o"][0] in ("maximizeIndicator", "minimizeIndicator"):
+                q = creator(d["o"][1])
+                if q in place and place[q] > place[p_]:
+                    return False
+        return True
+
+    for run in runs:
+        if rng.random() < 0.1:
+            continue
+        for _ in range(20):
+            perm = run[:]
+            rng.shuffle(perm)
+            if perm != run and valid(run, perm):
+                changed = True
+                for a, b in zip(run, perm):
+                    order[a] = b
+                break
+    if not changed:
+        return script, False
+    # old indicator index -> new index
+    remap, n = {}, 0
+    for newpos, oldpos in enumerate(order):
+        a, b = created[oldpos]
+        for k in range(a, b):
+            remap[k] = n
+            n += 1
+    out = []
+    for oldpos in order:
+        d = json.loads(json.dumps(script[oldpos], default=list))
+        if d["op"] == "objective" and d["o"][0] in ("maximizeIndicator", "minimizeIndicator"):
+            d["o"][1] = remap.get(d["o"][1], d["o"][1])
+        if d["op"] == "constraint" and d["c"][0] in ("indicatorTarget", "indicatorBounds"):
+            d["c"][1] = remap.get(d["c"][1], d["c"][1])
+        out.append(d)
+    return fix_script(out), True
+
+
+def library_optimum(script, cfg=None):
+    """the objective value of the schedule the library's own solve() returns on a fresh build of `script` (default
+    configuration: the incremental optimiser); None when there is nothing definite to compare (no objective, mixed
+    directions, no schedule, or the anytime search ran into its time budget)"""
+    import time
+    real = pslib.Real()
+    real.run(script)
+    if real.problem is None or not real.problem.objectives:
+        return None
+    import processscheduler as ps
+    with smrun.silent():
+        try:
+            s = ps.SchedulingSolver(problem=real.problem, max_time=10, **(cfg or {}))
+            t0 = time.time()
+            sol = s.solve()
+            wall = time.time() - t0
+        except Exception:  # noqa: BLE001
+            return None
+    if not sol or wall >= 4:
+        return None
+    setup = smrun.objective_setup(real, cfg or {}, script)
+    if setup is None:
+        return None
+    try:
+        return smrun.value_of(s._model, setup[0])
+    except Exception:  # noqa: BLE001
+        return None
+
+
 # ------------------------------------------------------------------------------ comparison of two builds
 def build(script):
     real = pslib.Real()
@@ -288,7 +386,7 @@ def solver_with(assertions, timeout=10000):
     return s
 
 
-def compare_builds(realA, A, realB, B, ren, cmap, script, k=5):
+def compare_builds(realA, A, realB, B, ren, cmap, script, k=5, script2=None):
     """verdicts, cross-pinned schedules (both directions), optimum.  Returns a violation description or None"""
     sa, sb = solver_with(A), solver_with(B)
     va, vb = str(sa.check()), str(sb.check())
@@ -312,11 +410,17 @@ def compare_builds(realA, A, realB, B, ren, cmap, script, k=5):
             sf.add(block(rf, m))
     # optimum
     setupA = smrun.objective_setup(realA, {}, script)
-    setupB = smrun.objective_setup(realB, {}, None)
+    setupB = smrun.objective_setup(realB, {}, script2)
     if setupA is not None and setupB is not None:
         oa, ob = optimum(A, *setupA), optimum(B, *setupB)
         if oa is not None and ob is not None and oa != ob:
             return {"what": f"the optimal objective value changes: {oa} for the problem, {ob} for its twin"}
+        if script2 is not None:
+            # what a user sees: the value the library's own search returns for the two problems
+            la, lb = library_optimum(script), library_optimum(script2)
+            if la is not None and lb is not None and la != lb:
+                return {"what": f"the optimum solve() reports changes: {la} for the problem, {lb} for its twin"
+                                + (f" (optimum over the assertions: {oa})" if oa is not None else "")}
     return None
 
 
@@ -535,7 +639,7 @@ def run_c14(script, rng, summary):
             return None
         count(summary, "run_c14_rename")
         summary["nontrivial"].append(key)
-        v = compare_builds(realA, A, realB, B, ren, None, script)
+        v = compare_builds(realA, A, realB, B, ren, None, script, script2=script2)
         if v == "unknown":
             count(summary, "run_c14_unknown")
             return None
@@ -548,6 +652,9 @@ def run_c14(script, rng, summary):
             count(summary, "run_c14_permute_skipped_known_region:" + region)
             return None
         script2, cmap, what = permute_script(script, rng)
+        script2, moved = permute_indicators(script2, rng)
+        if moved:
+            what.append("indicator")
         if not what:
             count(summary, "run_c14_permute_identity")
             return None
@@ -570,7 +677,7 @@ def run_c14(script, rng, summary):
         for w in what:
             count(summary, "run_c14_permute_" + w)
         summary["nontrivial"].append(key)
-        v = compare_builds(realA, A, realB, B, {}, cmap, script)
+        v = compare_builds(realA, A, realB, B, {}, cmap, script, script2=script2)
         if v == "unknown":
             count(summary, "run_c14_unknown")
             return None
